@@ -38,6 +38,9 @@ func (pass *AddFields) processObject(_ *Visitor, _ *ast.Schema, object ast.Objec
 			continue
 		}
 
+		// every object gets its own copy of the field: the pass may match several
+		// objects, and later passes rewrite fields in place.
+		field = field.DeepCopy()
 		field.AddToPassesTrail("AddFields[created]")
 
 		object.Type.Struct.Fields = append(object.Type.Struct.Fields, field)
